@@ -328,7 +328,9 @@ func (g *untypedGen) blockNoContinue(depth int) string {
 var faultExprs = []string{"1 % 0", "1 / 0", "nope", "n.x", "s.x.y", `"a".repeat(-1)`, `"a".repeat("x")`, `1 + "a"`, `-"a"`, `"a".nosuchfunc()`, "arr.len(1, 2).x", "(nan--).x",
 	"{ nope }.nope", "{ a: 1, nope }.a", "[1, nope]", "{k: nope}.k", "(nope ? 1 : 2)", "(true ? nope : 1)", "obj[nope]", "!nope", "arr[nope]", `"a".repeat(nope)`, "-nope", "nope++", "{ s, nope }",
 	// literals that occur, fault-free, on earlier lines too
-	"nil + 1", "nil.x", "-nil", "true + 1", "false.x", "1.nofn()", "\"\".nofn()", "[].x", "{}.x"}
+	"nil + 1", "nil.x", "-nil", "true + 1", "false.x", "1.nofn()", "\"\".nofn()", "[].x", "{}.x",
+	// faulty arguments on receivers for which the built-in would have nothing to do (round 16)
+	`"".repeat(-1)`, `"".repeat(0 - 2)`, `"".repeat("x")`, `[].slice(2, 1).x`, `"".at("x")`}
 
 // places of a template tree an expression F can stand in; evaluated says whether the place is reached
 var faultPlaces = []struct {
@@ -360,6 +362,14 @@ var faultPlaces = []struct {
 	{"dump", "@dump(F)", false, true},           // @dump shows what its argument evaluates to, a fault included: either
 	{"dump-second", "@dump(1, F)", false, true}, // outcome is a defined result, only the contract is checked
 	{"array-element", "{{ [1, F, 3] }}", true, false},
+	{"array-only-element", "{{ [F] }}", true, false},
+	{"array-only-element-receiver", "{{ [F].len() }}", true, false},
+	{"array-only-element-nested", "{{ [[F]] }}", true, false},
+	{"array-first-element", "{{ [F, 1] }}", true, false},
+	{"array-last-element", "{{ [1, F] }}", true, false},
+	{"object-only-value", "{{ q = {a: F} }}ok", true, false},
+	{"elseif-cond-second", "@if(false)y@elseif(false)z@elseif(F)w@end", true, false},
+	{"call-only-argument-of-array", "{{ [1].contains(F) }}", true, false},
 	{"object-value", "{{ q = {a: 1, b: F} }}ok", true, false},
 	{"index", "{{ [1, 2][F] }}", true, false},
 	{"indexed", "{{ (F)[0] }}", true, false},
